@@ -26,6 +26,8 @@ mod re_flags;
 mod re_matcher;
 mod re_program;
 mod regex;
+#[cfg(regexml_verif)]
+mod verif;
 
 pub use crate::analyze_string::{AnalyzeEntry, MatchEntry};
 pub use crate::re_compiler::Error;
